@@ -18,8 +18,9 @@
     Environment: the subscriber emitting messages / closing its channel (after Close() was
     called on it, or - when it honours the Subscribe context - after that context was
     cancelled), handlers finishing (any time, or never), callers of Close (any number, any
-    time), the user cancelling Run's context, and time (the CloseTimeout may fire whenever the
-    closer waits).
+    time), the user cancelling Run's context, time (the CloseTimeout may fire whenever the
+    closer waits), and the subscriber's own Close() returning to handleClose (any time, or never:
+    a subscriber may block in Close() until its in-flight message is settled, or for ever).
 
     Scope: every handler that was added has been started (RunHandlers is C10's); AddHandler /
     RunHandlers / Handler.Stop during or after Close are not modelled.  handlersLock is held by
@@ -60,6 +61,8 @@ Inductive hcpc :=
 | HCSelect                (* select { <-routersCloseCh | <-ctx.Done() } *)
 | HCCheck                 (* fix6 only: ctx.Done taken, polling routersCloseCh *)
 | HCSubClose              (* before h.subscriber.Close() (decorator: inner Close ...) *)
+| HCInSubClose            (* ... inside the subscriber's own Close(): it returns when the ENVIRONMENT says so - at once,
+                             after the in-flight message is settled, after CloseTimeout, or never *)
 | HCDecSignal             (* ... inner Close returned, before close(t.closing) (D8 repair) ... *)
 | HCWaitPump              (* ... then subscribeWg.Wait() *)
 | HCStop                  (* before h.stopFn() *)
@@ -151,6 +154,7 @@ Inductive label :=
 | LChanClose (h : hid)       (* the subscriber closes its channel *)
 | LFinish (m : mid)          (* the handler function returns *)
 | LTimeout (c : cid)         (* time.After(CloseTimeout) fires *)
+| LSubCloseRet (h : hid)     (* the subscriber's Close() returns to handleClose *)
 (* the code *)
 | LClose (c : cid)           (* next step of Close call c *)
 | LWaitDone (c : cid)        (* select: all waiters done *)
@@ -214,6 +218,11 @@ Definition step (s : state) (l : label) : option state :=
   | LTimeout c =>
       match cp s c with
       | CWait => Some (s <| cp := upd (cp s) c (CClosedCh RErr) |> <| close_res := Some RErr |>)
+      | _ => None
+      end
+  | LSubCloseRet h =>
+      match hc s h with
+      | HCInSubClose => Some (s <| hc := upd (hc s) h HCDecSignal |>)
       | _ => None
       end
   | LClose c =>
@@ -341,7 +350,7 @@ Definition step (s : state) (l : label) : option state :=
       match hc s h with
       | HCCheck => Some (s <| hc := upd (hc s) h (if closingCh s then HCSubClose else HCStop) |>)
       | HCSubClose =>
-          Some (s <| hc := upd (hc s) h HCDecSignal |> <| sub_closing := upd (sub_closing s) h true |>
+          Some (s <| hc := upd (hc s) h HCInSubClose |> <| sub_closing := upd (sub_closing s) h true |>
                   <| sub_closes := upd (sub_closes s) h (S (sub_closes s h)) |>)
       | HCDecSignal =>
           Some (s <| hc := upd (hc s) h HCWaitPump |> <| dec_closing := upd (dec_closing s) h true |>)
